@@ -107,7 +107,9 @@ def run(ctx):
             cases.append({"id": "temp%d" % i, "schema": schema, "kind": "temp",
                           "ops": [{"op": "create_temporary", "schema": schema}, {"op": "verify"}, {"op": "db_query", "q": "version_name"},
                                   {"op": "rawdump", "checks": False},
-                                  {"op": "raw_exec", "sql": "SELECT schemaVersionMajor, schemaVersionMinor, schemaVersionPatch FROM Information"}]})
+                                  {"op": "raw_exec", "sql": "SELECT schemaVersionMajor, schemaVersionMinor, schemaVersionPatch FROM Information"},
+                                  {"op": "raw_exec", "sql": "SELECT schemaVersionMajor, schemaVersionMinor, schemaVersionPatch FROM "
+                                   + ("main" if schema.startswith("2.") else "perfdata") + ".Information"}]})
         results = {}
         runner.run_cases(cases, cfg="plain", on_result=lambda r: results.__setitem__(r.case["id"], r))
         for c in cases:
@@ -153,6 +155,9 @@ def run(ctx):
                 row = ev[4]["ret"]["rows"][0]
                 if tuple(row) != want_ver:
                     ctx.violation(f"stored-version-wrong {schema} temporary", f"{schema}: temporary library stores version {row}", wit)
+                row2 = ev[5]["ret"]["rows"][0]
+                if tuple(row2) != want_ver:
+                    ctx.violation(f"stored-version-wrong {schema} temporary-second-database", f"{schema}: temporary library stores version {row2} in its performance database", wit)
                 if v2:
                     created = {"m": master_from_dump(dump, "main")}
                 else:
